@@ -2,8 +2,9 @@
 //! stream in chosen chunks with descriptors attached (sendmsg + SCM_RIGHTS) to chosen writes.
 //!
 //! stdin lines -> one stdout line each:
-//!   build <spec>|<spec>...          spec = typ,bo,arraylen,nfds,serial,tag   (typ c|s|r|e ; bo l|B ;
-//!                                   arraylen -1 = no byte array in the body)
+//!   build <spec>|<spec>...          spec = typ,bo,arraylen,nfds,serial,tag[,u]   (typ c|s|r|e ; bo l|B ;
+//!                                   arraylen -1 = no byte array in the body ; u = the descriptors are attached
+//!                                   but not referenced by the body, which may then be empty)
 //!        -> <framehex>#<canon>|...  messages built with MessageBuilder and marshalled by the crate
 //!   run <streamhex> <n0.n1...> <events>   stream = all frames concatenated; ni = descriptor count of
 //!                                   message i; events (comma separated):
@@ -11,6 +12,8 @@
 //!        w<len>f<i>    ... with the descriptors of message i attached to this sendmsg
 //!        g | t | r     client: get_next_message(Nonblock) | get_next_message(Duration(1ms)) |
 //!                      read_once(Nonblock)
+//!        T | i         client: get_next_message(Duration(5 s)) | get_next_message(Infinite); only scheduled
+//!                      when a complete message is already queued (watchdog: 20 s)
 //!        -> one result per client op (comma separated):  M<canon>~<fd labels> | T | K | E<variant>
 //!           fd label = <msg index>.<position> found by fstat (dev, ino); ? when unknown
 //!   kprobe <hex:nfds;hex:nfds...> <req.req...>    raw socketpair: write the segments, then one
@@ -121,15 +124,26 @@ fn build_one(spec: &str) -> String {
             body: MarshalledMessageBody::with_byteorder(bo),
         },
     };
-    for _ in 0..nfds {
-        // the descriptor used to build the frame is irrelevant (the peer attaches its own); only the
-        // UNIX_FDS header field and the indices in the body matter
-        let fd = UnixFd::new(devnull());
-        msg.body.push_param(fd).unwrap();
+    let unreferenced = p.get(6).copied() == Some("u");
+    if !unreferenced {
+        for _ in 0..nfds {
+            // the descriptor used to build the frame is irrelevant (the peer attaches its own); only the
+            // UNIX_FDS header field and the indices in the body matter
+            let fd = UnixFd::new(devnull());
+            msg.body.push_param(fd).unwrap();
+        }
     }
     if alen >= 0 {
         let v: Vec<u8> = (0..alen as usize).map(|i| (i * 7 + serial.get() as usize) as u8).collect();
         msg.body.push_param(&v[..]).unwrap();
+    }
+    if unreferenced {
+        // descriptors attached to the message but not referenced by any `h` in the body (the body may even be
+        // empty): UNIX_FDS counts the attached descriptors
+        let fds: Vec<UnixFd> = (0..nfds).map(|_| UnixFd::new(devnull())).collect();
+        let buf = msg.get_buf().to_vec();
+        let sig = msg.get_sig().to_owned();
+        msg.body = MarshalledMessageBody::from_parts(buf, 0, fds, sig, bo);
     }
     let mut buf = Vec::new();
     rustbus::wire::marshal::marshal(&msg, serial, &mut buf).unwrap();
@@ -218,13 +232,29 @@ fn run(stream: &[u8], nfds: &[usize], events: &str) -> String {
                 }
                 pos += len;
             }
-            "g" | "t" => {
-                let tmo = if ev == "g" {
-                    Timeout::Nonblock
-                } else {
-                    Timeout::Duration(std::time::Duration::from_millis(1))
+            "g" | "t" | "T" | "i" => {
+                let tmo = match ev {
+                    "g" => Timeout::Nonblock,
+                    "t" => Timeout::Duration(std::time::Duration::from_millis(1)),
+                    // only scheduled when a complete message is already queued: returns at once
+                    "T" => Timeout::Duration(std::time::Duration::from_secs(5)),
+                    _ => Timeout::Infinite,
                 };
-                match recv.get_next_message(tmo) {
+                let armed = std::sync::Arc::new(std::sync::atomic::AtomicBool::new(ev == "i"));
+                if ev == "i" {
+                    // hang detector for the blocking read: the data is there, so it returns at once
+                    let a = armed.clone();
+                    std::thread::spawn(move || {
+                        std::thread::sleep(std::time::Duration::from_secs(20));
+                        if a.load(std::sync::atomic::Ordering::SeqCst) {
+                            println!("HANG get_next_message(Infinite) did not return within 20 s although a complete message was queued");
+                            std::process::exit(3);
+                        }
+                    });
+                }
+                let res = recv.get_next_message(tmo);
+                armed.store(false, std::sync::atomic::Ordering::SeqCst);
+                match res {
                     Ok(msg) => {
                         let labels: Vec<String> = msg
                             .body
